@@ -29,7 +29,7 @@ RULE = ("harness/src/bin/shuffle.rs: (1501) SliceRandom::shuffle of [0..n) (n in
         "rejections): slot labels read from the committed partial witness (public inputs + 3 Merkle caps + pow witness "
         "identify each proof) and the 4n preimage limbs, judged by the extracted predicate private_obs_ok (multiset exact, "
         "preimages canonical and pairwise distinct); (1505) preimages of consecutive commits share no value (fresh_ok); "
-        "(1506) REAL PublicBatchProver::commit (m=3 over 1-leaf private batches, k=1..3, rejections): labels in order = "
+        "(1506) REAL PublicBatchProver::commit (m=2 quick / m=3 thorough over 1-leaf private batches, k=1..m, rejections k=0 and k=m+1): labels in order = "
         "supplied order then templates; (1508) histogram of the orders seen for n<=3 (quick) / n<=4 (thorough): every order "
         "observed at least once (the only statistical decision; miss probability < 1e-40). distinct = distinct (fid, input); "
         "non-trivial = a shuffle with n>=2 / an index draw with ubound>=2 / every preimage candidate / every commit observation")
